@@ -152,10 +152,13 @@ def leanchecker(mods):
     return rc == 0, (out + err)[-1500:]
 
 
-def gen_main():
+def gen_main(with_translated=True):
     """Main.lean and Relay.lean are generated from the files present: every Relay/Drv/Foo.lean must define
-    `DrvFoo.modes : List (String × IO Unit)`."""
+    `DrvFoo.modes : List (String × IO Unit)`. Drivers named Gen* run the TRANSLATED code (Relay/Extracted/Gen*.lean);
+    they can be left out when a change to /repo makes the translation unusable, so that the hand models still run."""
     drv = sorted(os.path.basename(f)[:-5] for f in glob.glob(LEAN + "/Relay/Drv/*.lean"))
+    if not with_translated:
+        drv = [d for d in drv if not d.startswith("Gen")]
     main = "".join(f"import Relay.Drv.{d}\n" for d in drv)
     main += "\n/-! GENERATED by vlib.gen_main from Relay/Drv/*.lean -- do not edit -/\n\n"
     main += "def allModes : List (String × IO Unit) :=\n  " + " ++ ".join(f"Drv{d}.modes" for d in drv) + "\n\n"
@@ -174,10 +177,22 @@ def gen_main():
             open(path, "w").write(txt)
 
 
+TRANSLATED_DRIVER_OK = True
+
+
 def build_model_driver():
+    """returns (ok, log); sets TRANSLATED_DRIVER_OK = False when only the driver without the translated-code modes builds"""
+    global TRANSLATED_DRIVER_OK
     gen_main()
     rc, log = lake_build(["relaydrv"])
-    return rc == 0, log[-4000:]
+    TRANSLATED_DRIVER_OK = rc == 0
+    if rc != 0:
+        gen_main(with_translated=False)
+        rc2, log2 = lake_build(["relaydrv"])
+        if rc2 == 0:
+            return True, log[-4000:]
+        return False, log2[-4000:]
+    return True, log[-4000:]
 
 
 # --------------------------------------------------------------------------- Go side
@@ -272,12 +287,15 @@ def case_hash(case):
     return hashlib.sha256("\n".join(case).encode()).hexdigest()[:16]
 
 
-def shrink(case, still_fails, budget=120):
-    """greedy delta debugging on a list of op lines"""
+def shrink(case, still_fails, budget=120, seconds=None):
+    """greedy delta debugging on a list of op lines (bounded in tries and in wall-clock time: a failing case that
+    hangs the implementation costs a time-out per try)"""
     cur = list(case)
     n = 2
     tries = 0
-    while len(cur) >= 2 and tries < budget:
+    seconds = seconds or float(os.environ.get("VERIF_SHRINK_SECONDS", "150"))
+    t_end = time.time() + seconds
+    while len(cur) >= 2 and tries < budget and time.time() < t_end:
         size = max(1, len(cur) // n)
         reduced = False
         for i in range(0, len(cur), size):
@@ -288,7 +306,7 @@ def shrink(case, still_fails, budget=120):
                 n = max(n - 1, 2)
                 reduced = True
                 break
-            if tries >= budget:
+            if tries >= budget or time.time() >= t_end:
                 break
         if not reduced:
             if size == 1:
